@@ -342,7 +342,7 @@ class Check(object):
             failed = []
             live = list(range(len(shards[k])))
             for _ in range(max_rounds + 1):
-                lines = [header, 'Ltac chi_tie := %s.' % tactic]
+                lines = header.rstrip('\n').split('\n') + ['Ltac chi_tie := %s.' % tactic.replace('\n', ' ')]
                 index = {}
                 for i in live:
                     index[len(lines) + 1] = i
@@ -350,7 +350,8 @@ class Check(object):
                 rc, out = self.coqc_text('ival_%s_%s_%d' % (self.pid, tag, k), '\n'.join(lines) + '\n', timeout)
                 if rc == 0:
                     return failed, None
-                m = re.search(r'line (\d+), characters', out)
+                ms = re.findall(r'File "[^"]*", line (\d+), characters [\d-]+:\s*\n\s*Error', out)
+                m = re.match(r'(\d+)', ms[-1]) if ms else None
                 if not m or int(m.group(1)) not in index:
                     return failed, out[-800:]
                 i = index[int(m.group(1))]
@@ -377,7 +378,7 @@ class Check(object):
         c['agree'] += len(cases) - n_fail
         return bad
 
-    def numeric(self, tag, header, unfold, cases, shard=24, timeout=1500, prec=80):
+    def numeric(self, tag, header, unfold, cases, shard=24, timeout=1500, prec=80, integral=False):
         """cases: list of (label, [coq Prop strings]).  All propositions of a case are proved in one file
         section; returns the set of case labels with at least one proposition that CoqInterval could not
         prove (= disagreement between chi's floats and the model)."""
@@ -388,7 +389,9 @@ class Check(object):
         u = ' '.join(unfold)
         tactic = ('cbv [%s]; decide_guards; cbv [close sclose is_neginf lclose slclose %s]; '
                   'repeat match goal with |- _ /\\ _ => split end; '
-                  'try exact I; interval with (i_prec %d)' % (u, u, prec))
+                  'try exact I; %s' % (u, u, (
+                      'rints; interval with (i_prec %d)' % prec
+                      if integral else 'interval with (i_prec %d)' % prec)))
         bad = self.interval(tag, header, tactic, flat, shard=shard, timeout=timeout)
         self.cov['correspondence'][tag]['goals'] = len(flat)
         self.cov['correspondence'][tag]['cases'] = len(cases)
